@@ -62,6 +62,7 @@ type interpreter struct {
 	runtimeErrorString types.Type             // the runtime.errorString type
 	sizes              types.Sizes            // the effective type-sizing function
 	ps                 *pathState
+	lazyInit           map[*ssa.Package]int // non-target packages: 1 = init running, 2 = init attempted
 }
 
 type deferred struct {
